@@ -102,7 +102,7 @@ func partsExistWhenEmitted(ti *mon.TraceIndex, rec string) []mon.Problem {
 func c19(args []string) {
 	c := chk.New("C19", "exploration", args)
 	c.Build(false)
-	c.Rule("every bundled component is placed between sources and recorders / consuming tasks and compared with a reference function: FileCombinator and ParamCombinator with 1-4 ports and stream lengths 0..B+1 from independent upstreams (B in {1,3}) and 0..B from a shared upstream - the multiset of aligned tuples (i-th item of every out-port) must equal the Cartesian product, each once; IPSelectorSync with every predicate outcome pattern over up to 6 aligned tuples; FileSplitter over files of 0..12 lines (some lines 5 000 and 20 000 bytes long, percent signs and tabs in the text) (with and without trailing newline) x 1..5 lines per split - parts concatenate back to the input, no part longer than the limit; Concatenator (single upstream: exact arrival order; fan-in: arrival order as recorded; GroupByTag) - output == every input's content plus newline once in arrival order; FileSource / ParamSource / FileToParamsReader (incl. last line without newline, empty lines) / CommandToParams - emitted == given / read, in order; FileGlobber - emitted == an independent matcher over a generated directory tree, per pattern in lexical order; the recorders stat every item on reception: what a file-emitting component hands downstream must exist at that moment (FileSplitter parts included); Concatenator with GroupByTag over a stream mixing tagged and untagged files, and over tag values that differ in punctuation only (files identified through the emitted IPs); two or three FileSplitter processes at work at the same time on equally named files in different directories; FileSplitter history: one file split in a first run, then that file plus unsplit ones in a second run. distinct_nontrivial = distinct (component, shape) cases whose comparison was made on >= 1 emitted item or an empty expectation")
+	c.Rule("every bundled component is placed between sources and recorders / consuming tasks and compared with a reference function: FileCombinator and ParamCombinator with 1-4 ports and stream lengths 0..B+1 from independent upstreams (B in {1,3}) and 0..B from a shared upstream - the multiset of aligned tuples (i-th item of every out-port) must equal the Cartesian product, each once; IPSelectorSync with every predicate outcome pattern over up to 6 aligned tuples; FileSplitter over files of 0..12 lines (some lines 5 000 and 20 000 bytes long, percent signs and tabs in the text) (with and without trailing newline) x 1..5 lines per split - parts concatenate back to the input, no part longer than the limit; Concatenator (single upstream: exact arrival order; fan-in: arrival order as recorded; GroupByTag) - output == every input's content plus newline once in arrival order; FileSource / ParamSource / FileToParamsReader (incl. last line without newline, empty lines, lines that begin or end with blanks / tabs) / CommandToParams - emitted == given / read, in order; FileGlobber - emitted == an independent matcher over a generated directory tree, per pattern in lexical order (also several patterns of which some match nothing); the recorders stat every item on reception: what a file-emitting component hands downstream must exist at that moment (FileSplitter parts included); Concatenator with GroupByTag over a stream mixing tagged and untagged files, and over tag values that differ in punctuation only (files identified through the emitted IPs); two or three FileSplitter processes at work at the same time on equally named files in different directories; FileSplitter history: one file split in a first run, then that file plus unsplit ones in a second run. distinct_nontrivial = distinct (component, shape) cases whose comparison was made on >= 1 emitted item or an empty expectation")
 	c.Assume("unequal closing of IPSelectorSync inputs is a documented failure and is not generated", "a trailing empty part after an exact multiple of the line limit is legal")
 	rng := c.Rand("c19")
 	var jobs []*c19Job
@@ -513,7 +513,9 @@ func c19(args []string) {
 			}})
 	}
 	// ---- FileToParamsReader / CommandToParams
-	lineSets := [][]string{{}, {"one"}, {"a", "b", "c"}, {"x1", "", "x3"}, {"p-q", "r.s", "t_u", "v", "w"}}
+	lineSets := [][]string{{}, {"one"}, {"a", "b", "c"}, {"x1", "", "x3"}, {"p-q", "r.s", "t_u", "v", "w"},
+		// records with empty first / last columns and padded values: white space at the ends of a line is data
+		{"\tb\tc", "a\tb\t", " padded ", "in  ner", "  "}}
 	for li, lines := range lineSets {
 		for _, trailing := range []bool{true, false} {
 			content := strings.Join(lines, "\n")
@@ -544,7 +546,9 @@ func c19(args []string) {
 	}
 	// ---- globber
 	tree := []string{"g/a.txt", "g/b.txt", "g/ab.txt", "g/a.dat", "g/sub/a.txt", "g/sub/c.txt", "g/sub/deep/a.txt", "g/sub/deep/b.dat", "g/sab/x.txt", "h/a.txt", "g/.hidden.txt"}
-	pats := [][]string{{"g/*.txt"}, {"g/?.txt"}, {"g/[ab].txt"}, {"g/*/a.txt"}, {"g/s*/*.txt"}, {"g/*/*/*"}, {"g/a.*", "h/*"}, {"g/nomatch*"}, {"*/a.txt"}, {"g/sub/deep/?.???"}}
+	pats := [][]string{{"g/*.txt"}, {"g/?.txt"}, {"g/[ab].txt"}, {"g/*/a.txt"}, {"g/s*/*.txt"}, {"g/*/*/*"}, {"g/a.*", "h/*"}, {"g/nomatch*"}, {"*/a.txt"}, {"g/sub/deep/?.???"},
+		// several patterns of which one in the middle, the last or the first matches nothing
+		{"g/*.txt", "g/nomatch*", "h/*"}, {"g/?.txt", "zzz/*"}, {"nothing/here*", "g/[ab].txt", "also/nothing*", "g/s*/*.txt"}}
 	for pi, ps := range pats {
 		s := &spec.Spec{Name: "glob", MaxTasks: 2, Sources: map[string]string{}}
 		for _, f := range tree {
